@@ -41,7 +41,7 @@ def write(items, missing_alt=".", missing_ins="?", missing_chg="?", label_auth="
           decimals=3, layout="wwpdb", rng=None):
     """layout: which _atom_site items are written and in which order - 'wwpdb' (the archive's 21 items), 'short'
     (without the redundant auth_comp_id / auth_atom_id), 'noentity' (without label_entity_id / label_seq_id),
-    'extra' (additional esd items with '?'), 'shuffled' (all items in a random order; needs rng)."""
+    'extra' (additional esd items with '?'), 'esd' (each coordinate followed by its esd item), 'shuffled' (all items in a random order; needs rng)."""
     """label_auth: 'same' (label ids = auth ids) | 'wwpdb' (label_asym_id per entity instance: polymer chains keep
     their letter, every hetero/water group gets a fresh label_asym_id; label_seq_id = 1..n per chain)."""
     out = [f"data_{entry}", "#"]
@@ -59,6 +59,10 @@ def write(items, missing_alt=".", missing_ins="?", missing_chg="?", label_auth="
     elif layout == "extra":
         k = cols.index("occupancy")
         cols = cols[:k] + ["Cartn_x_esd", "Cartn_y_esd", "Cartn_z_esd"] + cols[k:]
+    elif layout == "esd":
+        # each coordinate followed by its standard uncertainty (CIF gives loop columns no fixed order)
+        k = cols.index("Cartn_x")
+        cols = cols[:k] + ["Cartn_x", "Cartn_x_esd", "Cartn_y", "Cartn_y_esd", "Cartn_z", "Cartn_z_esd"] + cols[k + 3:]
     elif layout == "shuffled":
         cols = list(cols)
         rng.shuffle(cols)
@@ -105,6 +109,9 @@ def write(items, missing_alt=".", missing_ins="?", missing_chg="?", label_auth="
                lab_seq, a["icode"] or missing_ins, fmt % a["x"], fmt % a["y"], fmt % a["z"], "%.2f" % a["occ"],
                "%.2f" % a["b"], a["chg"] or missing_chg, a["resi"], a["resn"], chain, q(a["name"]), model]
         byname = dict(zip(allcols, row))
+        if layout == "esd":
+            # refined structures carry numeric uncertainties
+            byname.update({"Cartn_x_esd": "0.012", "Cartn_y_esd": "0.009", "Cartn_z_esd": "0.015"})
         out.append(" ".join(str(byname.get(c, "?")) for c in cols))
     out.append("#")
     return "\n".join(out) + "\n"
